@@ -66,6 +66,7 @@ pub const OP_CLONE: u8 = 19;
 pub const OP_INTO_ITER: u8 = 20;
 pub const OP_INTO_SLICE: u8 = 21;
 pub const OP_DEDUP_BY: u8 = 22;
+pub const OP_DRAIN_BOUNDS: u8 = 23;
 
 unsafe fn setup<'a, const LEN: usize>(bump: &'a Bump, e: &[u8; 4]) -> (BVec<'a, u8>, Model) {
     let mut v = BVec::with_capacity_in(4, bump);
@@ -223,6 +224,25 @@ pub fn v1<const LEN: usize, const OP: u8>() {
                 let mut k = 0;
                 while k < j - i {
                     m.remove(i);
+                    k += 1;
+                }
+            }
+            OP_DRAIN_BOUNDS => {
+                // explicit (Bound, Bound) range: start EXCLUDED, end INCLUDED  ==  (i+1)..(j+1)
+                use core::ops::Bound;
+                kani::assume(i < LEN && j < LEN && i <= j);
+                {
+                    let mut d = v.drain((Bound::Excluded(i), Bound::Included(j)));
+                    let first = d.next();
+                    if i < j {
+                        vassert!(first == Some(m.a[i + 1]), "NEVER: [C13] drain with an excluded start bound yielded the wrong first item");
+                    } else {
+                        vassert!(first.is_none(), "NEVER: [C13] drain over an empty (excluded..=included) range yielded an item");
+                    }
+                }
+                let mut k = 0;
+                while k < j - i {
+                    m.remove(i + 1);
                     k += 1;
                 }
             }
@@ -471,12 +491,11 @@ vh!(v1_append_l3, 14, v1::<3, OP_APPEND>());
 vh!(v1_split_off_l3, 14, v1::<3, OP_SPLIT_OFF>());
 vh!(v1_drain_l3, 14, v1::<3, OP_DRAIN>());
 vh!(v1_drain_l4, 14, v1::<4, OP_DRAIN>());
+vh!(v1_drain_bounds_l4, 14, v1::<4, OP_DRAIN_BOUNDS>());
 vh!(v1_retain_l3, 14, v1::<3, OP_RETAIN>());
 vh!(v1_dedup_l3, 14, v1::<3, OP_DEDUP>());
 vh!(v1_dedup_key_l4, 14, v1::<4, OP_DEDUP_KEY>());
 vh!(v1_dedup_by_l3, 14, v1::<3, OP_DEDUP_BY>());
-vh!(v1_reserve_l2, 14, v1::<2, OP_RESERVE>());
-vh!(v1_reserve_l4, 14, v1::<4, OP_RESERVE>());
 vh!(v1_shrink_l2, 14, v1::<2, OP_SHRINK>());
 vh!(v1_into_iter_l3, 14, v1::<3, OP_INTO_ITER>());
 vh!(v1_into_iter_l0, 14, v1::<0, OP_INTO_ITER>());
@@ -507,7 +526,17 @@ pub fn v4_growth<const OP: u8>() {
             3 => v.extend_from_slice(&[x]),
             4 => v.extend(core::iter::once(x)),
             5 => v.resize(5, x),
-            _ => v.reserve(1),
+            _ => {
+                // reserve(3) on a full vector of 4, then that many pushes must not move the buffer
+                v.reserve(3);
+                vassert!(v.capacity() >= 7, "NEVER: [C13,C18] capacity below what reserve promised");
+                let p0 = v.as_ptr() as usize;
+                v.push(x);
+                v.push(x);
+                v.push(x);
+                vassert!(v.as_ptr() as usize == p0, "NEVER: [C18] buffer moved although capacity had been reserved");
+                vassert!(v.len() == 7 && v[0] == e[0] && v[3] == e[3] && v[6] == x, "NEVER: [C13] contents after reserve + push");
+            }
         }
         vassert!(cap0 == 4, "NEVER: [C13] with_capacity_in(4) did not give capacity 4");
         vassert!(v.capacity() >= 2 * cap0, "NEVER: [C18] a vector that had to grow did not at least double its capacity");
